@@ -670,10 +670,27 @@ def trueIdx : List PV → Nat → List PV
   | [], _ => []
   | x :: xs, i => if x.truthy then .int i :: trueIdx xs (i + 1) else trueIdx xs (i + 1)
 
-/-- `numpy.where(cond)` for a one-dimensional array: a 1-tuple holding the index array. -/
+def PV.isArr : PV → Bool
+  | .arr _ => true
+  | _ => false
+
+/-- row and column indices of the truthy cells of a two-dimensional array, row-major. -/
+def trueIdx2 : List PV → Nat → List PV × List PV
+  | [], _ => ([], [])
+  | r :: rs, i =>
+    let cols := match r with
+      | .arr cells => trueIdx cells 0
+      | _ => []
+    let rest := trueIdx2 rs (i + 1)
+    (cols.map (fun _ => PV.int i) ++ rest.1, cols ++ rest.2)
+
+/-- `numpy.where(cond)`: for a one-dimensional array a 1-tuple holding the index array; for a two-dimensional array
+(every item is a row) the pair (row indices, column indices) of the truthy cells in row-major order. -/
 def npWhere (c : PV) : RV :=
   match c with
-  | .arr l => .ok (.tup [.arr (trueIdx l 0)])
+  | .arr l =>
+    if l.any PV.isArr then .ok (.tup [.arr (trueIdx2 l 0).1, .arr (trueIdx2 l 0).2])
+    else .ok (.tup [.arr (trueIdx l 0)])
   | _ => .error .other
 
 /-- stable ascending argsort of a short integer array (NumPy sorts rows of fewer than 17 items by
@@ -859,6 +876,9 @@ def pyDelItem (v i : PV) : RV :=
   | .list l, some i => match normIndex l.length i with
                        | some j => .ok (.list (l.eraseIdx j))
                        | Option.none => .error .indexError
+  | .dict ks vs, _ => match findIdxEq i ks 0 with            -- `del d[key]` (`KeyError` is `PyErr.other`)
+                      | some j => .ok (.dict (ks.eraseIdx j) (vs.eraseIdx j))
+                      | Option.none => .error .other
   | _, _ => .error .typeError
 
 /-! ## dicts (insertion ordered) and the remaining NumPy idioms of dsw/graphized.py -/
@@ -1054,6 +1074,95 @@ def npZeros2 (n m : PV) : RV :=
   match n.asInt?, m.asInt? with
   | some n, some m => if n < 0 ∨ m < 0 then .error .valueError
                       else .ok (.arr (List.replicate n.toNat (.arr (List.replicate m.toNat (.int 0)))))
+  | _, _ => .error .typeError
+
+/-! ## NumPy / collections idioms of `remove_nasty_arc` -/
+
+/-- `numpy.max` of a one- or two-dimensional integer array (`ValueError` when empty). -/
+def npMax (a : PV) : RV :=
+  match flattenInts a with
+  | some (x :: xs) => .ok (.int (xs.foldl max x))
+  | some [] => .error .valueError
+  | Option.none => .error .other
+
+/-- `numpy.unique` of a one-dimensional integer array: sorted, without repetitions. -/
+def npUnique (a : PV) : RV :=
+  match a with
+  | .arr l => match l.mapM PV.asInt? with
+              | some ks => .ok (.arr ((ks.foldr insertInt []).map PV.int))
+              | Option.none => .error .other
+  | _ => .error .other
+
+/-- `numpy.intersect1d(a, b)`: the sorted common values of two one-dimensional integer arrays. -/
+def npIntersect1d (a b : PV) : RV :=
+  match a, b with
+  | .arr x, .arr y =>
+    match x.mapM PV.asInt?, y.mapM PV.asInt? with
+    | some xs, some ys =>
+      .ok (.arr (((xs.foldr insertInt []).filter fun v => ys.contains v).map PV.int))
+    | _, _ => .error .other
+  | _, _ => .error .other
+
+/-- `numpy.argmax` of a one-dimensional integer array: the first position of the maximum (`ValueError` when empty). -/
+def npArgmax (a : PV) : RV :=
+  match a with
+  | .arr l => match l.mapM PV.asInt? with
+              | some (k :: ks) => .ok (.int (((k :: ks).idxOf ((k :: ks).foldl max k) : Nat) : Int))
+              | some [] => .error .valueError
+              | Option.none => .error .other
+  | _ => .error .other
+
+/-- `a.reshape(-1)`: the cells of a one- or two-dimensional array in row-major order. -/
+def npFlatten (a : PV) : RV :=
+  match a with
+  | .arr l => .ok (.arr (l.flatMap fun r => match r with
+                                            | .arr cells => cells
+                                            | x => [x]))
+  | _ => .error .other
+
+/-- `collections.Counter(items)` as a dict: distinct items in order of first occurrence, with their counts. -/
+def pyCounter (v : PV) : RV :=
+  match pyIter v with
+  | .error e => .error e
+  | .ok items =>
+    let keys := items.foldl (fun ks x => if (findIdxEq x ks 0).isSome then ks else ks ++ [x]) []
+    .ok (.dict keys (keys.map fun k => .int ((items.filter fun x => PV.eqb x k).length : Nat)))
+
+/-- `a.T`: the transpose of a two-dimensional array with rows of equal length; a one-dimensional array (also the empty
+one that `array([])` is) is its own transpose. -/
+def npT (a : PV) : RV :=
+  match a with
+  | .arr [] => .ok (.arr [])
+  | .arr (r :: rs) =>
+    match r with
+    | .arr cells =>
+      let n := cells.length
+      .ok (.arr ((List.range n).map fun j => .arr ((r :: rs).map fun row => match row with
+                                                                          | .arr cs => cs.getD j .none
+                                                                          | x => x)))
+    | _ => .ok a
+  | _ => .error .other
+
+/-- `a[:, idx]`: for every row of a two-dimensional array the cells at the positions of the index array `idx`. -/
+def npIndexCols (a idx : PV) : RV :=
+  match a, idx with
+  | .arr rows, .arr js =>
+    (mapM' (fun row => match row with
+                       | .arr _ => (mapM' (fun k => pyIndex row k) js).map PV.arr
+                       | _ => .error .indexError) rows).map PV.arr
+  | _, _ => .error .other
+
+/-- `⌊log_b n⌋` for `b ≥ 2` (fuel = `n`). -/
+def natLogFuel (b : Nat) : Nat → Nat → Nat
+  | 0, _ => 0
+  | f + 1, n => if n < b then 0 else 1 + natLogFuel b f (n / b)
+
+/-- `int(log(a) / log(b))` for positive ints `a`, `b ≥ 2`: the exact `⌊log_b a⌋`. CPython computes the quotient of two
+doubles; for the table sizes `4^k` the code passes the quotient is exactly `k` (validated by the harness for every size
+it generates, like `log4` of the hand-written model). -/
+def pyIntLogRatio (a b : PV) : RV :=
+  match a.asInt?, b.asInt? with
+  | some x, some y => if x ≤ 0 ∨ y ≤ 1 then .error .other else .ok (.int (natLogFuel y.toNat x.toNat x.toNat))
   | _, _ => .error .typeError
 
 end Dsw.Py
